@@ -178,3 +178,79 @@ def register(reg, stubs, world):
     reg.add(Contract('_parser:ParseState._mix_or_and_expr', pre=mix_pre, post=mix_post, modifies=('$val',),
                      frame=lambda cx, f, o, n: [], allocates=True, props=('C01',),
                      doc='re-balancing for `A or B and C`: the last disjunct is re-opened and joined with C'))
+    register_parse_check(reg, stubs, world)
+    register_result(reg, stubs, world)
+
+
+def register_parse_check(reg, stubs, world):
+    from pyvc.builtins_ import f_split1
+    from pyvc.state import SClass
+
+    def table(eng):
+        ext = stubs.quals['_checks:get_extensions'](eng, None, [], {})[0][2].mapping
+        regd = stubs.statics['_checks.registered_checks'](eng).mapping
+        return ext, regd
+
+    def pc_post(cx, out):
+        eng = cx.eng
+        if out.kind != 'ret':
+            return [False]
+        rule, r = cx['rule'], out.value
+        s1 = out.st
+        ext, regd = table(eng)
+        sv = V.s(rule)
+        parts = f_split1(sv, z3.StringVal(':'))
+        kind, match = V.s(parts[0]), V.s(parts[1])
+        has_colon = z3.And(V.is_str(rule), z3.Contains(sv, z3.StringVal(':')))
+        cls = lambda c: clsof(V.ref(r)) == eng.cid(c)
+        # which class implements a kind: extensions first, then the registry, then the default handler
+        chain = None
+        default = regd.get(None)
+        expr = cls(default.name) if default is not None else cls('FalseCheck')
+        for k, v in list(regd.items())[::-1]:
+            if k is not None:
+                expr = z3.If(kind == z3.StringVal(k), cls(v.name), expr)
+        for k, v in list(ext.items())[::-1]:
+            expr = z3.If(kind == z3.StringVal(k), cls(v.name), expr)
+        is_leaf = z3.And(rule != mk_str('!'), rule != mk_str('@'), has_colon)
+        return [('returns-a-fresh-check-object', z3.And(V.is_obj(r), V.ref(r) >= cx.st0.ap, eng.isinst(r, 'BaseCheck'))),
+                ('bang-denies', z3.Implies(rule == mk_str('!'), cls('FalseCheck'))),
+                ('at-allows', z3.Implies(rule == mk_str('@'), cls('TrueCheck'))),
+                ('anything-without-a-colon-behaves-as-bang',
+                 z3.Implies(z3.And(rule != mk_str('!'), rule != mk_str('@'), z3.Not(has_colon)), cls('FalseCheck'))),
+                ('kind:match-goes-to-the-handler-of-its-kind', z3.Implies(is_leaf, z3.And(
+                    expr, eng.get(s1, r, 'kind') == V.str(kind), eng.get(s1, r, 'match') == V.str(match))))]
+    def pc_pre(cx):
+        return [('rule-is-a-json-yaml-value-not-an-object', z3.Not(V.is_obj(cx['rule'])))]
+    reg.add(Contract('_parser:_parse_check', pre=pc_pre, post=pc_post, allocates=True, props=('C02', 'C05'),
+                     doc='a single check: ! and @, kind:match dispatched by kind (extensions, registry, default), '
+                         'anything else fails closed; never raises'))
+
+
+def register_result(reg, stubs, world):
+    NON_OPERANDS = ('(', ')', 'and', 'or', 'not', 'string')
+
+    def res_pre(cx):
+        eng, st = cx.eng, cx.st0
+        s = cx['self']
+        toks, vals = z3.Select(st.H('tokens'), V.ref(s)), z3.Select(st.H('values'), V.ref(s))
+        j = z3.Int('rp!j')
+        tseq = V.items(z3.Select(st.H('$val'), V.ref(toks)))
+        return [('token-and-value-stacks-are-lists-of-equal-length', z3.And(
+            list_obj(eng, st, toks), list_obj(eng, st, vals),
+            z3.Length(tseq) == z3.Length(V.items(z3.Select(st.H('$val'), V.ref(vals)))),
+            qforall([j], z3.Implies(z3.And(j >= 0, j < z3.Length(tseq)), V.is_str(tseq[j])))))]
+
+    def res_post(cx, out):
+        eng, st = cx.eng, cx.st0
+        s = cx['self']
+        tseq = items(eng, st, cx.old(s, 'tokens'))
+        vseq = items(eng, st, cx.old(s, 'values'))
+        operand = z3.And(z3.Length(vseq) == 1, z3.And([tseq[0] != mk_str(t) for t in NON_OPERANDS]))
+        if out.kind == 'ret':
+            return [('a-result-only-for-a-single-operand-token', operand),
+                    ('returns-its-value', out.value == vseq[0])]
+        return [('ValueError-otherwise', z3.And(out.exc.cname == 'ValueError', z3.Not(operand)))]
+    reg.add(Contract('_parser:ParseState.result', pre=res_pre, post=res_post, raises=('ValueError',), allocates=True,
+                     props=('C02',), doc='the parse succeeded only if exactly one token is left and it is an operand '
+                     '(a lone operator, parenthesis or quoted string is a parse failure)'))
